@@ -554,3 +554,104 @@ Proof.
     + apply (RunAuthRefused hex with_fd evs1 ABlocked); auto. discriminate.
     + intros _. left. auto.
 Qed.
+
+(* ================================================================ consequences of conformance (the property text) *)
+(* the conversation: each thing written, paired with everything read before the next write *)
+Definition conversation (hex : list N) (with_fd : bool) (r1 r2 : list N) : list (list N * list N) :=
+  (NUL, []) :: (AUTH_LINE hex, r1) :: (if with_fd then [(NEG_LINE, r2)] else []) ++ [(BEGIN_LINE, [])].
+Definition client_lines (hex : list N) (with_fd : bool) : list (list N) :=
+  NUL :: AUTH_LINE hex :: (if with_fd then [NEG_LINE] else []) ++ [BEGIN_LINE].
+(* the complete client side of a successful handshake *)
+Definition expected_bytes (hex : list N) (with_fd : bool) : list N :=
+  NUL ++ AUTH_EXTERNAL ++ hex ++ CRLF ++ (if with_fd then NEGOTIATE_UNIX_FD ++ CRLF else []) ++ BEGIN ++ CRLF.
+
+Lemma expected_bytes_lines hex with_fd : concat (client_lines hex with_fd) = expected_bytes hex with_fd.
+Proof.
+  unfold client_lines, expected_bytes, AUTH_LINE, NEG_LINE, BEGIN_LINE. destruct with_fd; cbn [concat app];
+    rewrite ?app_nil_r, <- ?app_assoc; reflexivity.
+Qed.
+
+Lemma segs_map_R x r ps t : segs (Some (x, r)) (map R ps ++ t) = segs (Some (x, r ++ concat ps)) t.
+Proof.
+  revert r; induction ps as [|p ps IH]; intros r; cbn [map app concat segs].
+  - now rewrite app_nil_r.
+  - now rewrite IH, app_assoc.
+Qed.
+Lemma reply_received word evs a : reply word evs a ->
+  exists ps, received evs = concat ps /\ (forall x r t, segs (Some (x, r)) (evs ++ t) = segs (Some (x, r ++ concat ps)) t)
+             /\ sent evs = []
+             /\ (a = AOk -> accepted word (concat ps))
+             /\ (a = ARejected -> exists line dropped, first_line (concat ps) line dropped /\ utf8_valid line = true /\ starts_with word line = false)
+             /\ (a = ABlocked -> ~ has_crlf (concat ps)).
+Proof.
+  intros H. inversion H; subst; exists ps; unfold received.
+  - rewrite reads_map_R, sent_map_R. repeat split; auto; try discriminate. + intros; apply segs_map_R. + intros _. exists line, dropped; auto.
+  - rewrite reads_map_R, sent_map_R. repeat split; auto; try discriminate. + intros; apply segs_map_R. + intros _. exists line, dropped; auto.
+  - rewrite reads_map_R, sent_map_R. repeat split; auto; try discriminate. intros; apply segs_map_R.
+  - rewrite reads_app, reads_map_R, sent_app, sent_map_R. cbn [reads sent app]. rewrite app_nil_r. repeat split; auto; try discriminate.
+    intros x r t. rewrite <- app_assoc, segs_map_R. reflexivity.
+  - rewrite reads_map_R, sent_map_R. repeat split; auto; try discriminate. intros; apply segs_map_R.
+Qed.
+
+Lemma sent_segs cur l :
+  concat (map fst (segs cur l)) = match cur with Some (x, _) => x | None => [] end ++ sent l.
+Proof.
+  revert cur; induction l as [|[x|x|] l IH]; intros cur; cbn [segs sent].
+  - destruct cur as [[x r]|]; cbn; now rewrite ?app_nil_r.
+  - rewrite map_app, concat_app, IH. destruct cur as [[y r]|]; cbn [map concat fst app]; now rewrite ?app_nil_r.
+  - destruct cur as [[y r]|]; apply IH.
+  - apply IH.
+Qed.
+Lemma sent_segments l : sent l = concat (map fst (segments l)).
+Proof. unfold segments. now rewrite sent_segs. Qed.
+
+(* T-order: the conversation is a prefix of NUL / AUTH -> r1 / NEGOTIATE -> r2 / BEGIN; a line is
+   written only after the complete, accepting reply to the previous one; success iff all of it *)
+Theorem conforming_order hex with_fd evs res :
+  conforming hex with_fd evs res ->
+  exists n r1 r2,
+    segments evs = firstn n (conversation hex with_fd r1 r2)
+    /\ n <> 1%nat
+    /\ ((2 < n)%nat -> accepted OK_ r1)
+    /\ (with_fd = true -> (3 < n)%nat -> accepted AGREE_UNIX_FD r2)
+    /\ (res = COk <-> n = length (conversation hex with_fd r1 r2))
+    /\ (n <= length (conversation hex with_fd r1 r2))%nat.
+Proof.
+  intros H. unfold segments, conversation.
+  assert (Hfin : forall P : Prop, P -> P) by auto.
+  inversion H; subst; clear H.
+  - exists 0%nat, [], []. cbn [segs firstn]. repeat split; auto; try lia; try discriminate; destruct with_fd; cbn; (lia || discriminate).
+  - destruct (reply_received _ _ _ H0) as (ps & _ & Hs & _ & _ & _ & _).
+    exists 2%nat, (concat ps), []. cbn [segs app]. rewrite <- (app_nil_r evs0), Hs. cbn [segs firstn app].
+    repeat split; auto; try lia.
+    + intros Hr. destruct a; cbn in Hr; congruence.
+    + destruct with_fd; cbn; discriminate.
+    + destruct with_fd; cbn; lia.
+  - destruct (reply_received _ _ _ H1) as (ps & _ & Hs & _ & Ha & _ & _).
+    exists 2%nat, (concat ps), []. cbn [segs app]. rewrite <- (app_nil_r evs0), Hs. cbn [segs firstn app].
+    repeat split; auto; try lia; try discriminate; cbn; lia.
+  - destruct (reply_received _ _ _ H1) as (ps & _ & Hs & _ & Ha & _ & _).
+    exists 3%nat, (concat ps), []. cbn [segs app]. rewrite Hs. cbn [segs firstn app].
+    repeat split; auto; try lia; try discriminate; cbn; lia.
+  - destruct (reply_received _ _ _ H1) as (ps & _ & Hs & _ & Ha & _ & _).
+    exists 2%nat, (concat ps), []. cbn [segs app]. rewrite <- (app_nil_r evs0), Hs. cbn [segs firstn app].
+    repeat split; auto; try lia; try discriminate; cbn; lia.
+  - destruct (reply_received _ _ _ H1) as (ps1 & _ & Hs1 & _ & Ha1 & _ & _).
+    destruct (reply_received _ _ _ H2) as (ps2 & _ & Hs2 & _ & _ & _ & _).
+    exists 3%nat, (concat ps1), (concat ps2). cbn [segs app]. rewrite Hs1. cbn [segs app].
+    rewrite <- (app_nil_r evs2), Hs2. cbn [segs firstn app].
+    repeat split; auto; try lia.
+    + intros Hr. destruct a; cbn in Hr; congruence.
+    + cbn; discriminate.
+    + cbn; lia.
+  - destruct (reply_received _ _ _ H1) as (ps1 & _ & Hs1 & _ & Ha1 & _ & _).
+    destruct (reply_received _ _ _ H2) as (ps2 & _ & Hs2 & _ & Ha2 & _ & _).
+    exists 3%nat, (concat ps1), (concat ps2). cbn [segs app]. rewrite Hs1. cbn [segs app].
+    rewrite <- (app_nil_r evs2), Hs2. cbn [segs firstn app].
+    repeat split; auto; try lia; try discriminate; cbn; lia.
+  - destruct (reply_received _ _ _ H1) as (ps1 & _ & Hs1 & _ & Ha1 & _ & _).
+    destruct (reply_received _ _ _ H2) as (ps2 & _ & Hs2 & _ & Ha2 & _ & _).
+    exists 4%nat, (concat ps1), (concat ps2). cbn [segs app]. rewrite Hs1. cbn [segs app].
+    rewrite Hs2. cbn [segs firstn app].
+    repeat split; auto; try lia; try discriminate; cbn; lia.
+Qed.
